@@ -1,6 +1,6 @@
 (* C16 at source level: pin_to_bytes as TRANSLATED FROM src/pin.rs on this run.
    Only statements; every proof is `exact` of a lemma from proofs/steps/. *)
-From WS Require Import lib.Bytes lib.Res lib.StepLoop Consts Steps spec.Select spec.Pin proofs.steps.Pin.
+From WS Require Import lib.Bytes lib.Res lib.Sha1 lib.StepLoop Consts Steps spec.Select spec.Pin model.Pin proofs.Pin proofs.steps.Pin.
 Local Open Scope N_scope.
 
 Theorem C16_source_digits : forall pin out, pin < 2 ^ 32 -> length out = 10%nat ->
@@ -13,5 +13,28 @@ Theorem C16_source_grid : forall seed,
   tr_pin_remap_pin_grid seed = Some (grid seed) /\ grid seed = select 10 (seed mod fact 10) (iota 10).
 Proof. intro seed. split; [exact (pin_source_grid seed) | reflexivity]. Qed.
 
+(* the hash as computed by the translated calculate_hash, for every u32 PIN, seed and pair of salts:
+   None below 1000, otherwise SHA1(client_salt | SHA1(server_salt | ASCII positions of the digits in the
+   layout)); no panic (find().unwrap() and `+= 0x30` included) *)
+Theorem C16_source_hash : forall pin seed ss cs, pin < 2 ^ 32 ->
+  tr_pin_calculate_hash pin seed ss cs =
+  Some (if pin <? 1000 then None
+        else Some (sha1 (cs ++ sha1 (ss ++ map (fun d => 48 + index_of d (grid seed)) (digits pin))))).
+Proof.
+  intros pin seed ss cs Hpin. rewrite pin_calculate_hash_translated, (proofs.Pin.calculate_hash_spec pin seed ss cs Hpin).
+  reflexivity.
+Qed.
+
+(* the translated verification returns true exactly when a hash exists and equals the presented one *)
+Theorem C16_source_verify_iff : forall pin seed ss cs h, pin < 2 ^ 32 ->
+  exists b, tr_pin_verify_client_pin_hash pin seed ss cs h = Some b /\
+            (b = true <-> 1000 <= pin /\ h = pin_hash seed pin ss cs).
+Proof.
+  intros pin seed ss cs h Hpin. destruct (proofs.Pin.verify_iff pin seed ss cs h Hpin) as (b & E & H).
+  exists b. split; [|exact H]. rewrite pin_verify_client_pin_hash_translated, E. reflexivity.
+Qed.
+
 Print Assumptions C16_source_digits.
+Print Assumptions C16_source_hash.
+Print Assumptions C16_source_verify_iff.
 Print Assumptions C16_source_grid.
